@@ -19,6 +19,11 @@ import traceback
 
 ROOT = os.path.dirname(os.path.dirname(os.path.abspath(__file__)))
 sys.path.insert(0, ROOT)
+# the code under test is /repo's working tree (editable install of the base venv); VERIF_REPO points the check at another checkout of the same
+# repository instead (used by tools/try_patch.sh to try a seeded change in a scratch worktree without touching /repo)
+REPO = os.environ.get("VERIF_REPO", "/repo")
+if REPO != "/repo":
+    sys.path.insert(0, REPO)
 
 from symx import core  # noqa: E402
 
@@ -145,7 +150,7 @@ def source_hashes(mod):
             src = inspect.getsource(f)
             name = "%s.%s" % (getattr(f, "__module__", "?"), getattr(f, "__qualname__", getattr(f, "__name__", "?")))
             out.append({"function": name, "sha256_16": hashlib.sha256(src.encode()).hexdigest()[:16],
-                        "file": os.path.relpath(inspect.getsourcefile(f), "/repo")})
+                        "file": os.path.relpath(inspect.getsourcefile(f), REPO)})
         except Exception as e:  # noqa
             out.append({"function": repr(f), "error": str(e)})
     return out
